@@ -195,6 +195,77 @@ def h_delay_symbol_order(eng):
     eng.prove("delay.symbol_order_is_the_function_argument_order", z3.BoolVal(seqs["load_model"] == want))
 
 
+def h_save_load_roundtrip(eng):
+    """load_model(what save_model wrote) -- both REAL functions, composed: every list of the model comes back with the same names in
+    the same order, shapes, Python types, aliases and plain attributes; an MX-valued attribute is classified by save_model (depends on
+    the parameters / does not) and read back by load_model from the matching evaluation of the metadata function, from the variable's
+    own rows; outputs, delay states, alias relation, string lists and the four functions are the model's own."""
+    w = A.make_world(eng, with_db=False, minimal_env=True)
+    A.install(eng, w)
+    shapes = [{"states": 2, "der_states": 2, "parameters": 1}, {"alg_states": 1, "inputs": 2, "constants": 1}, {"parameters": 2, "states": 1, "der_states": 1}][eng.choice(3)]
+    eng.input("variables_per_category", shapes)
+    positions = [(k, i, a) for k in A.CATEGORIES for i in range(shapes.get(k, 0)) for a in ("max", "start")]
+    key, idx, attr = positions[eng.choice(len(positions))]
+    kind = ["dependent", "independent", "constant"][eng.choice(3)]
+    eng.input("mx_attribute", {"category": key, "variable": idx, "attribute": attr, "kind": kind})
+    model, objs = A.make_model(eng, shapes, mx_attr=(key, idx, attr, kind))
+    opts = w.current_options
+    eng.assume(z3.Not(ops.to_z3(w.codegen)))
+    rec = A.run_save(eng, w, model, opts)
+    if rec["raised"] is not None or len(rec["dumps"]) != 1:
+        eng.prove("roundtrip2.save_completes", False, raised=rec["raised"])
+        return
+    w.db, w.pickle_outcome = rec["dumps"][0][0], None
+    eng.assume(z3.Not(w.cache_absent))
+    for path, mt in w.mtimes.items():
+        eng.assume(mt <= w.cache_mtime)
+    out, m, exc = A.run_load(eng, w)
+    if out == "raises":
+        eng.prove("roundtrip2.what_save_wrote_loads", False, exc=m)
+        return
+    eng.cover("roundtrip2.returns")
+    eng.prove("roundtrip2.what_save_wrote_loads", True)
+    for cat in A.CATEGORIES + ["der_states"]:
+        got = m.fields.get(cat)
+        src = objs[cat]
+        ok = isinstance(got, VList) and len(got.items) == len(src)
+        eng.prove("roundtrip2.same_variables_in_order", z3.BoolVal(bool(ok)), category=cat)
+        if not ok:
+            continue
+        for k, (v2, v) in enumerate(zip(got.items, src)):
+            s2, s1 = v2.fields.get("symbol"), v.fields["symbol"]
+            ok = isinstance(s2, A.MXStub) and s2.label == s1.label
+            eng.prove("roundtrip2.same_variables_in_order", z3.BoolVal(bool(ok)), category=cat)
+            if ok:
+                eng.prove("roundtrip2.same_shape", z3.And(ops.to_arith(s2.shape[0]) == s1.shape[0], ops.to_arith(s2.shape[1]) == s1.shape[1]))
+            eng.prove("roundtrip2.same_python_type_and_aliases", z3.BoolVal(v2.fields.get("python_type") is v.fields["python_type"] and v2.fields.get("aliases") is v.fields["aliases"]))
+            for j, a in enumerate(A.ATTRS):
+                val, orig = v2.fields.get(a), v.fields[a]
+                if not isinstance(orig, A.AttrMX):
+                    eng.prove("roundtrip2.plain_attribute_restored", z3.BoolVal(val is orig), attribute=a)
+                    continue
+                sel = selection_of(val)
+                if sel is None:
+                    eng.prove("roundtrip2.mx_attribute_comes_from_the_metadata_function", False, got=repr(val))
+                    continue
+                mat, rows, col = sel
+                eng.prove("roundtrip2.mx_attribute_comes_from_the_metadata_function", z3.BoolVal(isinstance(mat, A.Matrix) and mat.label.endswith("." + cat)))
+                want_call = "#1." if kind == "dependent" else "#2."
+                eng.prove("roundtrip2.parameter_dependent_attributes_use_the_parameter_evaluation", z3.BoolVal(want_call in mat.label), kind=kind, source=mat.label)
+                eng.prove("roundtrip2.column_is_the_attribute", ops.to_arith(col) == j)
+                offset = sum((src[q].fields["symbol"].shape[0] * src[q].fields["symbol"].shape[1] for q in range(k)), z3.IntVal(0))
+                n = s1.shape[0] * s1.shape[1]
+                if isinstance(rows, VSlice):
+                    lo = ops.to_arith(rows.start if rows.start is not None else 0)
+                    eng.prove("roundtrip2.rows_are_the_variables_own", z3.And(lo == offset, ops.to_arith(rows.stop) == offset + n))
+                else:
+                    eng.prove("roundtrip2.rows_are_the_variables_own", z3.And(ops.to_arith(rows) == offset, n == 1))
+    for name in ("outputs", "delay_states", "alias_relation", "string_constants", "string_parameters"):
+        eng.prove("roundtrip2.other_lists_are_the_models_own", z3.BoolVal(m.fields.get(name) is model.fields[name]), which=name)
+    for o in ("dae_residual", "initial_residual", "variable_metadata", "delay_arguments"):
+        eng.prove("roundtrip2.functions_are_the_models_own", z3.BoolVal(m.fields.get("_%s_function" % o) is model.fields[o + "_function"]), function=o)
+
+
 from pyvc.values import stub as _stub
 
 
@@ -206,8 +277,9 @@ _symbols._pyvc_method = True
 _symbols_method = _symbols
 
 
-HARNESSES = [("api.load_model/reconstruction", h_reconstruction), ("api.save_model+load_model/delay-symbol-order", h_delay_symbol_order), ("model.Variable.to_dict/from_dict", h_variable_roundtrip)]
-EXPECTED_COVER = {"reconstruct.returns", "roundtrip.returns", "delayorder.done"}
+HARNESSES = [("api.load_model/reconstruction", h_reconstruction), ("api.save_model+load_model/delay-symbol-order", h_delay_symbol_order), ("model.Variable.to_dict/from_dict", h_variable_roundtrip),
+             ("api.save_model ; api.load_model (composed round trip)", h_save_load_roundtrip)]
+EXPECTED_COVER = {"reconstruct.returns", "roundtrip.returns", "delayorder.done", "roundtrip2.returns"}
 BOUNDED = True
 LEVEL = "proof"
 TRUSTED = ["pyvc VC generator", "z3 5.1.0",
@@ -216,13 +288,13 @@ TRUSTED = ["pyvc VC generator", "z3 5.1.0",
 ASSUMPTIONS = [
     "0-2 variables per category (enumerated), shapes symbolic; one symbolic dependency code at each enumerated (category, variable, attribute) position, all other positions NOT_MX",
     "of the delay-argument reconstruction only the agreement of save_model's and load_model's symbol enumeration (the index space of the stored dependencies) is under contract; the rest is exercised by the bounded replay only",
-    "save_model's side (what is written) is compared with load_model's reads by the bounded replay, not by contract",
+    "save_model's side: the composed harness runs the REAL save_model and then the REAL load_model on what it dumped (non-codegen; 3 variable-count patterns, one MX attribute at every position with kind dependent / independent / constant); delays in the stored model only in the bounded replay",
 ]
 DROPPED = ["numeric content of CasADi objects"]
 EXPLANATION = "Reconstruction contract of load_model incl. row correspondence for all variable shapes."
 MANIFEST = {
     "category": "proof",
-    "text": "load_model's reconstruction is executed symbolically on an arbitrary stored dictionary (symbolic variable shapes, symbolic dependency code): lists, names, shapes, types, aliases, plain attributes, outputs, delay states, alias relation, string lists and functions are restored as stored, and an MX attribute of variable i is read from exactly the rows that belong to variable i (prefix sum of element counts) in the attribute's column, from the parameter-dependent or the independent evaluation according to the stored code. Variable.to_dict/from_dict round trip is verified. A bounded replay compares real cached models with fresh compiles numerically.",
+    "text": "load_model's reconstruction is executed symbolically on an arbitrary stored dictionary (symbolic variable shapes, symbolic dependency code): lists, names, shapes, types, aliases, plain attributes, outputs, delay states, alias relation, string lists and functions are restored as stored, and an MX attribute of variable i is read from exactly the rows that belong to variable i (prefix sum of element counts) in the attribute's column, from the parameter-dependent or the independent evaluation according to the stored code. Variable.to_dict/from_dict round trip is verified. The real save_model and the real load_model are also executed in sequence (load of exactly what save dumped): variables, order, shapes, types, aliases, plain attributes, the dependent/independent classification of MX attributes and their row ranges, and the stored lists and functions survive the round trip. A bounded replay compares real cached models with fresh compiles numerically.",
     "note": "Assumed: pickle and CasADi serialisation, metadata matrix layout (C13); variable counts per category enumerated up to 2; delay reconstruction only in the bounded replay.",
     "technique": "contract-based deductive verification: whole-function symbolic execution with recording stubs for the metadata matrices, linear integer VCs (prefix sums), z3",
 }
